@@ -88,6 +88,21 @@ def stats_by_name(coal, pops, sfs=True, shared=None):
         out[f'th.demes[{p}].var'] = coal.tree_height.demes[p].var
     for p, q in itertools.product(pops, repeat=2):
         out[f'th.cov[{p},{q}]'] = coal.tree_height.demes.get_cov(p, q)
+    # the covariance / correlation MATRICES across demes, read by the names of their axes (list(dist.demes)); NaN (a deme that is never
+    # visited has no correlation) is compared as a sentinel
+    names = list(coal.tree_height.demes)
+    with np.errstate(all='ignore'):
+        cm = np.array(coal.tree_height.demes.cov, dtype=float)
+        try:
+            rm = np.array(coal.tree_height.demes.corr, dtype=float)
+        except ZeroDivisionError:
+            # a deme that is never visited has standard deviation 0.0 (a Python float): the correlation is not defined and the library
+            # raises; not a matter of naming - recorded as a sentinel so that every listing order / name must behave alike
+            rm = np.full(cm.shape, -6.0)
+    for (i, p), (j, q) in itertools.product(enumerate(names), repeat=2):
+        if p in pops and q in pops:
+            out[f'th.cov_matrix[{p},{q}]'] = float(np.nan_to_num(cm[j, i], nan=-7.0))
+            out[f'th.corr_matrix[{p},{q}]'] = float(np.nan_to_num(rm[j, i], nan=-7.0, posinf=-8.0, neginf=-9.0))
     if not sfs:
         out['loci.cov'] = np.array(coal.tree_height.loci.cov).tolist()
         out['loci[0].mean'] = coal.tree_height.loci[0].mean
@@ -105,6 +120,12 @@ def oracle_naming(case):
     one_locus = spec.get('loci', 1) == 1
     shared = {} if one_locus else None
     base = stats_by_name(build.coalescent(spec), pops, sfs=one_locus, shared=shared)
+    for p, q in itertools.product(pops, repeat=2):
+        n += 1
+        if not rel(base[f'th.cov_matrix[{p},{q}]'], base[f'th.cov[{p},{q}]'], 1e-9):
+            fails.append({'what': 'entry of the covariance matrix across demes (axes named by list(dist.demes)) is not the covariance of the two named demes',
+                          'pair': [p, q], 'matrix': base[f'th.cov_matrix[{p},{q}]'], 'get_cov': base[f'th.cov[{p},{q}]'], 'spec': spec})
+            break
     variants = []
     for order in case['orders']:
         variants.append(('reordered', rename_spec(spec, {}, order), {p: p for p in pops}))
@@ -625,6 +646,14 @@ def oracle_routes(case):
     checks.append(('end time on object vs call', obj.tree_height.mean, d.moment(1, end_time=T), 1e-12))
     checks.append(('end time: Coalescent.moment', c.moment(1, end_time=T), d.moment(1, end_time=T), 1e-12))
     checks.append(('accumulate route', float(c.accumulate(1, [T])[0]), d.moment(1, end_time=T), 1e-12))
+    # several end times given in an order that is neither ascending nor descending (a 3-cycle and its inverse: the permutation that sorts
+    # is not its own inverse): entry i belongs to end time i
+    for cyc in ([2 * T, T / 4, T], [T, 2 * T, T / 4], [T, T / 4, 3 * T, T / 2, 2 * T]):
+        for k_, dd in ((1, d), (2, d), (1, L)):
+            acc = np.asarray((c if dd is d else c.total_branch_length).accumulate(k_, cyc)).ravel()
+            for g_, a_ in zip(cyc, acc):
+                checks.append((f'accumulate(k={k_}, {"tree height" if dd is d else "total branch length"}) at the end times {cyc} (as given): entry of {g_} vs moment(end_time={g_})',
+                               float(a_), dd.moment(k_, end_time=g_), 1e-10))
     # an end time on the call overrides the one on the object, in both directions
     for T0 in (T / 2, 2 * T + 0.25):
         o0 = build.coalescent(dict(spec, end_time=T0))
